@@ -916,7 +916,7 @@ const refusedInputFormat = `^![a-z]+$`
 var refusedRegistrations []string
 
 var junkInputs = []string{"x", "zz", "99", "+1", "1 2", "0000", "hello world", "7*", "11", "22", "0x", "1\x00", "9\xff",
-	"50%", "a%20b", "5%d", "1%s", "9%!", "1%v%v", "a{{.x}}", "0{{", "1\t2", "a\"b", "a'b", "a\\n", "1$", "2^", "0|1", "a(b", "1[0", "x.y", "0?"}
+	"1\r", "0\r", "a\r", "1\r\r", "50%", "a%20b", "5%d", "1%s", "9%!", "1%v%v", "a{{.x}}", "0{{", "1\t2", "a\"b", "a'b", "a\\n", "1$", "2^", "0|1", "a(b", "1[0", "x.y", "0?"}
 
 func swapCase(s string) string {
 	b := []byte(s)
